@@ -32,6 +32,7 @@ structure WTx where
   gas : Int
   prio : Int
   sender : String
+  peers : List Nat := []   -- peer ids who have sent us this transaction
 deriving Repr, DecidableEq
 
 structure State where
@@ -147,6 +148,20 @@ def checkTx (s : State) (tx : Bytes) (v : Verdict) : State × CheckRes :=
       let r2 := addNewTransaction s1 w v
       (r2.1, .ok r2.2)
 
+/-- `SetPeer(id)` on the entry of `tx` -/
+def recordPeer (s : State) (tx : Bytes) (peer : Nat) : State :=
+  { s with txs := s.txs.map (fun e =>
+      if e.tx = tx then (if peer ∈ e.peers then e else { e with peers := e.peers ++ [peer] }) else e) }
+
+/-- `CheckTx(tx, cb, TxInfo{SenderID: peer})`: `checkTx` plus the peer bookkeeping (a cache hit on
+a pooled tx, a new entry, or an accepted resubmission that finds the tx in `txByKey`). -/
+def checkTxFrom (s : State) (tx : Bytes) (v : Verdict) (peer : Nat) : State × CheckRes :=
+  let r := checkTx s tx v
+  match r.2 with
+  | .inCache => (recordPeer r.1 tx peer, r.2)
+  | .ok _ => if accepted s.post v then (recordPeer r.1 tx peer, r.2) else r
+  | _ => r
+
 /-- `handleRecheckResult(tx, checkTxRes)` -/
 def handleRecheckResult (s : State) (tx : Bytes) (v : Verdict) : State :=
   if tx ∈ s.byKey then
@@ -220,13 +235,13 @@ def reapNGo (max : Int) : List WTx → List Bytes → List Bytes
 def reapMaxTxs (s : State) (max : Int) : List Bytes := reapNGo max (allEntriesSorted s) []
 
 inductive Op
-  | check (tx : Bytes) (v : Verdict)
+  | check (tx : Bytes) (v : Verdict) (peer : Nat := 0)
   | update (h : Int) (block : List (Bytes × Nat)) (pre post : Option Int) (rv : Bytes → Verdict)
       (expired : WTx → Bool)
   | flush
 
 def step (s : State) : Op → State
-  | .check tx v => (checkTx s tx v).1
+  | .check tx v peer => (checkTxFrom s tx v peer).1
   | .update h b pre post rv ex => update s h b pre post rv ex
   | .flush => flush s
 
